@@ -232,9 +232,37 @@ def r5(ctx, facts):
     r.instance("tablet-payload-parsed", bool(ub.calls_to("RawTablet::from_custom_payload")), "update_tablets_from_response parses the tablets-routing-v1 payload", ub.span, nontrivial=False)
 
 
+def r6(ctx, facts):
+    r = ctx.rule("R6", "replica selection uses the effective location preference (policy-level or inherited from the session)", floor=6)
+    DPT = "scylla::policies::load_balancing::default::DefaultPolicy"
+    n = 0
+    for meth in ("pick", "fallback"):
+        bs = facts.find(r"^<%s as scylla::policies::load_balancing::LoadBalancingPolicy>::%s$" % (DPT, meth))
+        if len(bs) != 1:
+            raise AnchorLost("DefaultPolicy::%s not found" % meth)
+        b = bs[0]
+        ri = b.calls_to("DefaultPolicy::routing_info")
+        if len(ri) != 1:
+            raise AnchorLost("DefaultPolicy::%s: expected one routing_info() call, found %d" % (meth, len(ri)))
+        ril = ri[0].dest[0]
+        for bb in sorted(b.live_blocks):
+            for st in b.stmts(bb):
+                if not (st[0] == "A" and st[2][0] == "agg" and st[2][1][0] == "adt" and st[2][1][1].endswith("::NodeLocationCriteria") and st[2][2]):
+                    continue
+                n += 1
+                locs = set()
+                for op in st[2][2]:
+                    locs |= backward_slice(b, op)[0]
+                r.instance("%s:criteria#%d:%s" % (meth, n, st[2][1][2]), ril in locs,
+                           "the datacenter/rack given to the replica selection must come from the effective preference computed by routing_info() (policy-level preference, else the one inherited from the session); "
+                           "this NodeLocationCriteria::%s is built from something else" % st[2][1][2], b.stmt_span(st))
+    if n == 0:
+        raise AnchorLost("no NodeLocationCriteria built in pick/fallback")
+
+
 def check(ctx):
     facts = ctx.facts("default")
-    for fn in (r1, r2, r3, r4, r5):
+    for fn in (r1, r2, r3, r4, r5, r6):
         try:
             fn(ctx, facts)
         except AnchorLost as ex:
